@@ -1,5 +1,9 @@
 #!/bin/sh
-# offline build of the framework
+# Offline build of the whole framework: every Lean module (model, lemmas, theorems, driver)
+# and every harness crate against /repo's working tree.
 set -e
 cd "$(dirname "$0")"
-exit 0
+export CARGO_NET_OFFLINE=true
+[ -f harness/Cargo.lock ] || cp /repo/Cargo.lock harness/Cargo.lock
+(cd lean && lake build Minicbor mcdrv)
+(cd harness && cargo build --release --offline)
